@@ -27,7 +27,7 @@ type C14Case struct {
 }
 
 var c14Nums = []string{"0", "1", "2", "10"}
-var c14Pres = []string{"", "alpha", "alpha.1", "rc1", "rc.1", "0.3.7", "x-y-z", "beta-2", "RC1", "SNAPSHOT", "Beta-2", "-rc.1", "5-gabcdef0", c14LongPre}
+var c14Pres = []string{"", "alpha", "alpha.1", "rc1", "rc.1", "0.3.7", "x-y-z", "beta-2", "RC1", "SNAPSHOT", "Beta-2", "-rc.1", "5-gabcdef0", c14LongPre, "1", "0", "20"}
 
 // c14LongPre: a branch name and a build number, longer than any fixed buffer a parser might use for a version
 const c14LongPre = "feature-some-rather-long-branch-name-with-many-words.in.it.20240510.build.123456789"
@@ -108,6 +108,15 @@ func enumC14(env *engine.Env, yield func(any) bool) {
 						return
 					}
 				}
+			}
+		}
+	}
+	// reversion: a placeholder version in the document, the real one set on the parsed configuration afterwards
+	// (placeholders without prerelease or metadata of their own: those would be explicit settings afterwards)
+	for _, ph := range []string{"dev", "latest", "1.2.3.4", "v0", "0.0.0"} {
+		for _, v := range []string{"v1.2.3-rc1+git5", "1.2.3", "2.0.0-beta.1", "1.2.3+meta", "v10.20.30", "1.2", "not-semver"} {
+			if !yield(C14Case{Part: "reversion", A: VerCfg{Version: v, Schema: ph}}) {
+				return
 			}
 		}
 	}
@@ -367,6 +376,32 @@ func checkC14(env *engine.Env, ci any) engine.Outcome {
 			out.Violations = append(out.Violations, engine.Violation{Sig: "version:split:" + cls + ":" + strings.Join(what, "+"),
 				Detail: fmt.Sprintf("version=%q prerelease=%q version_metadata=%q schema=%q\nWithDefaults yields version=%q prerelease=%q metadata=%q; the documented split is version=%q prerelease=%q metadata=%q",
 					c.A.Version, c.A.Pre, c.A.Meta, c.A.Schema, info.Version, info.Prerelease, info.VersionMetadata, wv, wp, wm)})
+		}
+		return out
+	}
+	if c.Part == "reversion" {
+		// a configuration parsed with a placeholder version (not a semantic version); the library user then sets the real
+		// version and asks for the settings: the real version is split as if it had been written in the document
+		cfg, err := parseYAML("name: pkg\narch: amd64\nversion: "+c.A.Schema+"\n", nil)
+		out.Key = fmt.Sprintf("reversion:%q:%q", c.A.Schema, c.A.Version)
+		if err != nil {
+			out.HarnessError = err.Error()
+			return out
+		}
+		cfg.Version = c.A.Version
+		info, gerr := safeGet(&cfg, "deb")
+		if gerr != nil {
+			out.HarnessError = gerr.Error()
+			return out
+		}
+		info = nfpm.WithDefaults(info)
+		ref := nfpm.WithDefaults(&nfpm.Info{Name: "pkg", Arch: "amd64", Version: c.A.Version})
+		out.Nontrivial = true
+		out.Transitions = 2
+		if info.Version != ref.Version || info.Prerelease != ref.Prerelease || info.VersionMetadata != ref.VersionMetadata {
+			out.Violations = append(out.Violations, engine.Violation{Sig: "version:split:after-placeholder",
+				Detail: fmt.Sprintf("parsed with the placeholder version %q, then version set to %q: Get+WithDefaults yield version=%q prerelease=%q metadata=%q; the same version set from the start yields %q %q %q",
+					c.A.Schema, c.A.Version, info.Version, info.Prerelease, info.VersionMetadata, ref.Version, ref.Prerelease, ref.VersionMetadata)})
 		}
 		return out
 	}
